@@ -7,6 +7,7 @@ import (
 	"fmt"
 	"go/token"
 	"go/types"
+	"sort"
 	"strings"
 
 	"golang.org/x/tools/go/ssa"
@@ -329,31 +330,36 @@ func compareCodec(c *Ctx, id, name string, enc, dec *ssa.Function, slot int64, f
 				}
 			}
 		}
-		okAll, nRet := true, 0
-		for _, b := range dec.Blocks {
-			ret, isR := b.Instrs[len(b.Instrs)-1].(*ssa.Return)
-			if !isR {
-				continue
-			}
-			started := false
-			for _, d := range dops {
-				if reachableFrom(d, ret) {
-					started = true
+		// in the order in which they dominate each other: from every read, every path to a return passes the next read
+		okAll, nRet := true, len(dops)
+		pre := dec.DomPreorder()
+		rank := map[*ssa.BasicBlock]int{}
+		for i, b := range pre {
+			rank[b] = i
+		}
+		idxIn := func(in ssa.Instruction) int {
+			for i, x := range in.Block().Instrs {
+				if x == in {
+					return i
 				}
 			}
-			if !started {
-				continue // a refusal before anything was read (a buffer of the wrong length)
+			return -1
+		}
+		sort.SliceStable(dops, func(i, j int) bool {
+			bi, bj := dops[i].Block(), dops[j].Block()
+			if bi != bj {
+				return rank[bi] < rank[bj]
 			}
-			nRet++
-			for _, d := range dops {
-				d := d
-				if !MustBefore(dec, func(in ssa.Instruction) bool { return in == d })(ret) {
-					okAll = false
-				}
+			return idxIn(dops[i]) < idxIn(dops[j])
+		})
+		for k := 0; k+1 < len(dops); k++ {
+			next := dops[k+1]
+			if !MustAfter(dec, func(in ssa.Instruction) bool { return in == next }, nil)(dops[k]) {
+				okAll = false
 			}
 		}
 		if len(dops) > 0 {
-			R.Check(okAll && nRet > 0, id, key+"decoder answers only after reading everything", P.Pos(dec.Pos()), "every return of the decoder that follows a read follows all of its reads", fmt.Sprintf("%d reads, %d returns", len(dops), nRet), "the decoder can return after reading only part of the record: the object it hands back is made up (e.g. a slot taken for free because its length word is 0) - what was encoded is not what is decoded, the running server (cache) and a restarted one (disk) disagree")
+			R.Check(okAll && nRet > 0, id, key+"decoder answers only after reading everything", P.Pos(dec.Pos()), "every return of the decoder that follows a read follows all of its reads", fmt.Sprintf("%d reads, each followed by the next on every path to a return", nRet), "the decoder can return after reading only part of the record: the object it hands back is made up (e.g. a slot taken for free because its length word is 0) - what was encoded is not what is decoded, the running server (cache) and a restarted one (disk) disagree")
 		}
 	}
 	if slot > 0 {
